@@ -1,4 +1,179 @@
-import TraitsVerif.Model.Delegate
+/-
+C11 — deferred traits mirror their target: delegation and prototyping.
+
+Model: `TraitsVerif/Model/Delegate.lean` (file:line of every transcribed function there); lemmas in
+`TraitsVerif/Lemmas/Deleg*.lean`.  Everything is quantified over all validators (`Env`), all pools,
+all histories (`runPool`, induction over the operation list in `Lemmas/DelegRun.lean`).
+
+Full-strength clauses that the code as it is does **not** satisfy are kept as `def … : Prop`
+(`DelegatesWriteFull`, `NotifyFull`) next to the proved restriction and a proved refutation whose
+witness history is replayed on the implementation by the oracle (known findings F18-F20).
+-/
+import TraitsVerif.Lemmas.DelegRun
+import TraitsVerif.Lemmas.DelegChain
+import TraitsVerif.Lemmas.DelegNotify
 namespace TraitsVerif.Props.C11
-theorem placeholder : True := trivial
+open TraitsVerif TraitsVerif.Model.Deleg
+
+/-! ## Naming: the forwarder listens to the attribute that reads and writes go to -/
+
+/-- For all four prefix styles (same name `""`, explicit name `"p"`, `"p*"`, `"*"`), every class (with
+any `__prefix__` or none) and every identifier-like attribute name: the name the delegate listener is
+registered for (`get_delegate_pattern` + `_trait_delegate_name`) is the name `delegate_attr_name`
+computes.  (This is the statement finding F5 falsified before fix 3a775a7.) -/
+theorem C11_listened_is_target (raw : Name) (modify : Bool) (clsPfx : Option Name) (n : Name) (hn : GoodName n) :
+    listenedName clsPfx n (mkDelegate raw modify) = targetName clsPfx n (mkDelegate raw modify) :=
+  listenedName_eq_targetName raw modify clsPfx n hn
+
+/-- Why `_prefix` must be the prefix *as given*: with the asterisk stripped from the metadata (the
+unfixed `Delegate.__init__`) the two names differ for the `'p_*'` style … -/
+theorem C11_listened_needs_raw_prefix_wildcard :
+    listenedName none ['x'] ⟨['p', '_'], ['p', '_'], .prefixName, true⟩
+      ≠ targetName none ['x'] ⟨['p', '_'], ['p', '_'], .prefixName, true⟩ := by decide
+
+/-- … and for the `'*'` style with a class prefix. -/
+theorem C11_listened_needs_raw_prefix_star :
+    listenedName (some ['q', '_']) ['x'] ⟨[], [], .className, true⟩
+      ≠ targetName (some ['q', '_']) ['x'] ⟨[], [], .className, true⟩ := by decide
+
+example : GoodName ['x'] := ⟨by decide, by decide⟩
+
+/-! ## Reading -/
+
+/-- **Read-through, every reachable state.**  After any history on any pool of well-formed classes: a
+DelegatesTo attribute — always — and a PrototypedFrom attribute — while it holds no local value — read as
+the target attribute on the current delegate. -/
+theorem C11_read (E : Env) (cs : List Cls) (hwf : ∀ c ∈ cs, ClsWF c) (ops : List Op) (k : Nat)
+    (o : ObjId) (n : Name) (d : DelegInfo) (y : ObjId) :
+    let p := runPool E k (mkPool cs) ops
+    (p.obj o).cls.trait n = .defer d →
+    (d.modify = true ∨ (p.obj o).dict n = none) →
+    (p.obj o).deleg = some y →
+    ∀ f, read p (f + 1) o n = read p f y (targetName (p.obj o).cls.pfx n d) := by
+  intro p htd hl hy f
+  have I : Inv p := runPool_inv E ops k _ (mkPool_inv cs hwf)
+  have hd : (p.obj o).dict n = none := by
+    rcases hl with hm | hd
+    · exact I.noLocal o n d htd hm
+    · exact hd
+  simp only [Model.Deleg.read, hd, htd, hy]
+
+/-- A DelegatesTo attribute never holds a value of its own, in any reachable state (anchored state
+"local value present iff a prototype link is broken"). -/
+theorem C11_delegates_never_local (E : Env) (cs : List Cls) (hwf : ∀ c ∈ cs, ClsWF c) (ops : List Op) (k : Nat)
+    (o : ObjId) (n : Name) (d : DelegInfo) :
+    let p := runPool E k (mkPool cs) ops
+    (p.obj o).cls.trait n = .defer d → d.modify = true → (p.obj o).dict n = none := by
+  intro p htd hm
+  exact (runPool_inv E ops k _ (mkPool_inv cs hwf)).noLocal o n d htd hm
+
+/-! ## Writing through DelegatesTo -/
+
+/-- **Assignment through DelegatesTo** whose target is a typed attribute of the delegate: it is the
+assignment of the target attribute on the delegate — same outcome, same events — so it is validated by
+the target's validator, changes nothing but that attribute of the delegate object, and changes nothing
+at all when the validator rejects. -/
+theorem C11_delegates_write (E : Env) (i : Nat) (p : Pool) (o : ObjId) (n : Name) (d : DelegInfo) (y : ObjId)
+    (vid : Nat) (dflt v : Val)
+    (htd : (p.obj o).cls.trait n = .defer d) (hm : d.modify = true) (hy : (p.obj o).deleg = some y)
+    (hx : (p.obj y).cls.trait (targetName (p.obj o).cls.pfx n d) = .plain vid dflt) :
+    let t := targetName (p.obj o).cls.pfx n d
+    step E i p (.set o n v) = step E i p (.set y t v) ∧
+    (∀ e, E.validate vid i v = .error e →
+        (step E i p (.set o n v)).pool = p ∧ (step E i p (.set o n v)).res = .error e ∧
+        (step E i p (.set o n v)).events = []) ∧
+    (∀ w, E.validate vid i v = .ok w →
+        (step E i p (.set o n v)).pool = p.setDict y t (some w) ∧ (step E i p (.set o n v)).res = .ok none) := by
+  intro t
+  have hstep : step E i p (.set o n v) = setPlain E i p y t vid dflt v := by
+    simp only [step, htd, setDefer]
+    have hw : walk p (p.obj o).cls.pfx 100 o d n = .ok (y, t, .plain vid dflt) := by
+      have := walk_end (p := p) (q := (p.obj o).cls.pfx) (f := 99) (d := d) (da := n) hy
+        (by show NonDefer ((p.obj y).cls.trait (targetName (p.obj o).cls.pfx n d)); rw [hx]; intro d'; simp)
+      rw [this]
+      show Except.ok (y, t, (p.obj y).cls.trait (targetName (p.obj o).cls.pfx n d)) = _
+      rw [hx]
+    rw [hw]
+    simp only [hm, if_true]
+  refine ⟨?_, ?_, ?_⟩
+  · rw [hstep]; simp only [step, hx, t]
+  · intro e he; rw [hstep]; simp [setPlain, he, fail]
+  · intro w hw; rw [hstep]; simp [setPlain, hw]
+
+/-- The same when the target attribute on the delegate is itself a DelegatesTo attribute (a chain),
+the two classes agree on `__prefix__`, and the chain below the delegate resolves within 99 steps:
+assigning through `o` is assigning the delegate's attribute. -/
+theorem C11_delegates_write_chain (E : Env) (i : Nat) (p : Pool) (o : ObjId) (n : Name) (d : DelegInfo) (y : ObjId)
+    (d1 : DelegInfo) (v : Val) (r : ObjId × Name × TraitDef)
+    (htd : (p.obj o).cls.trait n = .defer d) (hm : d.modify = true) (hy : (p.obj o).deleg = some y)
+    (hx : (p.obj y).cls.trait (targetName (p.obj o).cls.pfx n d) = .defer d1) (hm1 : d1.modify = true)
+    (hpfx : (p.obj y).cls.pfx = (p.obj o).cls.pfx)
+    (hw : walk p (p.obj y).cls.pfx 99 y d1 (targetName (p.obj o).cls.pfx n d) = .ok r) :
+    step E i p (.set o n v) = step E i p (.set y (targetName (p.obj o).cls.pfx n d) v) := by
+  have h2 : walk p (p.obj y).cls.pfx 100 y d1 (targetName (p.obj o).cls.pfx n d) = .ok r := walk_mono hw
+  have h1 : walk p (p.obj o).cls.pfx 100 o d n = .ok r := by
+    have := walk_defer (p := p) (q := (p.obj o).cls.pfx) (f := 99) (d := d) (da := n) hy hx
+    rw [this]; rw [hpfx] at hw; exact hw
+  obtain ⟨x, t, td⟩ := r
+  simp only [step, htd, hx, setDefer, h1, h2, hm, hm1, if_true]
+
+/-- The clause "assigning a DelegatesTo attribute validates against and stores into the delegate" at
+full strength: for *every* kind of target attribute on the delegate, assigning through the deferring
+attribute is assigning the target attribute on the delegate. -/
+def DelegatesWriteFull : Prop :=
+  ∀ (E : Env) (i : Nat) (p : Pool) (o : ObjId) (n : Name) (d : DelegInfo) (y : ObjId) (v : Val),
+    Inv p → (p.obj o).cls.trait n = .defer d → d.modify = true → (p.obj o).deleg = some y →
+    step E i p (.set o n v) = step E i p (.set y (targetName (p.obj o).cls.pfx n d) v)
+
+/-! ### witnesses -/
+
+def idEnv : Env := ⟨fun _ _ v => .ok v⟩
+def nx : Name := ['x']
+
+/-- Finding F20: `o0.x = DelegatesTo` → `o1.x = PrototypedFrom` → `o2.x` typed; o1 holds the local value 7. -/
+def protoPool : Pool :=
+  runPool idEnv 0
+    (mkPool [⟨none, [(nx, .defer (mkDelegate [] true))]⟩, ⟨none, [(nx, .defer (mkDelegate [] false))]⟩,
+             ⟨none, [(nx, .plain 0 3)]⟩])
+    [.swap 1 (some 2), .swap 0 (some 1), .set 1 nx 7]
+
+/-- … then `o0.x = 9` stores 9 into `o2` and `o0.x` still reads 7. -/
+theorem C11_write_through_prototype_lost :
+    let s := step idEnv 3 protoPool (.set 0 nx 9)
+    s.res = .ok none ∧ read s.pool 4 0 nx = .ok 7 ∧ read s.pool 4 1 nx = .ok 7 ∧ read s.pool 4 2 nx = .ok 9 := by
+  decide
+
+theorem protoPool_inv : Inv protoPool :=
+  runPool_inv idEnv _ 0 _ (mkPool_inv _ (by intro c hc; simp at hc; rcases hc with rfl | rfl | rfl <;> (unfold ClsWF; decide)))
+
+/-- **The full-strength write clause fails** on the code as it is (F20). -/
+theorem C11_write_through_prototype_fails : ¬ DelegatesWriteFull := by
+  intro h
+  have h1 := h idEnv 3 protoPool 0 nx (mkDelegate [] true) 1 9 protoPool_inv rfl rfl rfl
+  have h2 := congrArg (fun s => (s.pool.obj 2).dict nx) h1
+  revert h2
+  decide
+
+/-- Finding F19: `'*'` at two levels with different class prefixes: A(`a_`).x → B(`b_`).a_x → C. -/
+def starPool : Pool :=
+  runPool idEnv 0
+    (mkPool [⟨some ['a', '_'], [(nx, .defer (mkDelegate ['*'] true))]⟩,
+             ⟨some ['b', '_'], [(['a', '_', 'x'], .defer (mkDelegate ['*'] true))]⟩,
+             ⟨none, [(['a', '_', 'a', '_', 'x'], .plain 0 1), (['b', '_', 'a', '_', 'x'], .plain 0 2)]⟩])
+    [.swap 1 (some 2), .swap 0 (some 1)]
+
+/-- All-DelegatesTo chain, yet the assignment lands on `c.a_a_x` while reads come from `c.b_a_x`:
+after `a.x = 5`, `a.x` still reads 2. -/
+theorem C11_write_star_chain_fails :
+    let s := step idEnv 2 starPool (.set 0 nx 5)
+    s.res = .ok none ∧ read s.pool 4 0 nx = .ok 2 ∧
+    (s.pool.obj 2).dict ['a', '_', 'a', '_', 'x'] = some 5 ∧ (s.pool.obj 2).dict ['b', '_', 'a', '_', 'x'] = none ∧
+    step idEnv 2 starPool (.set 0 nx 5) ≠ step idEnv 2 starPool (.set 1 ['a', '_', 'x'] 5) := by
+  intro s
+  refine ⟨by decide, by decide, by decide, by decide, ?_⟩
+  intro h
+  have h2 := congrArg (fun s => (s.pool.obj 2).dict ['b', '_', 'a', '_', 'x']) h
+  revert h2
+  decide
+
 end TraitsVerif.Props.C11
